@@ -105,6 +105,11 @@ def cases(tier):
         if not names_canonical(t):
             continue
         yield ['ops', i]
+    # explicitly shared sub-objects at different binder depths
+    for i in range(len(DAG_SUBS)):
+        for j in range(len(DAG_CTXS)):
+            for w in range(3):
+                yield ['dag', i, j, w]
     # histories
     for h in histories(b['history_len']):
         yield ['hist', h]
@@ -409,6 +414,124 @@ def show_map(m):
     return '{' + ', '.join('%s := %s' % (ref.show(k), ref.show(x)) for k, x in m.items()) + '}'
 
 
+# ------------------------------------------------------------------------------ shared sub-objects
+
+Fc = ('c', 'f', fun(A, A))
+Gc = ('c', 'g', funs(A, A, A))
+Hc = ('c', 'H', funs(A, fun(A, A), A))
+DAG_SUBS = [('b', 0), ('b', 1), ('b', 2), ('app', Fc, ('b', 0)), ('app', Fc, ('b', 1)), ('app', ('app', Gc, ('b', 0)), ('b', 1)),
+            ('app', ('app', Gc, ('b', 1)), v('x', A)), ('app', Fc, sv('x', A)), ('app', ('app', Gc, ('b', 2)), ('b', 0))]
+# contexts with two holes '#'; the SAME python object is put into both holes
+DAG_CTXS = [
+    lambda h: ('app', ('app', Hc, h), ('abs', 'z', A, h)),
+    lambda h: ('app', ('app', Hc, ('app', Fc, h)), ('abs', 'z', A, ('app', Fc, h))),
+    lambda h: ('app', ('app', Gc, h), ('app', ('abs', 'z', A, h), ('c', 'c', A))),
+    lambda h: ('app', ('app', Gc, h), h),
+    lambda h: ('app', ('app', Hc, h), ('abs', 'z', A, ('app', ('abs', 'w', A, h), ('b', 0)))),
+    lambda h: ('abs', 'u', A, ('app', ('app', Hc, h), ('abs', 'z', A, h))),
+]
+
+
+def build_dag(sub_ref, ctx, wrappers):
+    """returns (holpy object with the hole object shared, reference tree)"""
+    from kernel.term import Abs
+    HOLE = ('c', '#hole#', A)
+    tree = ctx(HOLE)
+    shared = ref.to_term(sub_ref)
+
+    def conv(t):
+        from kernel.term import Comb
+        if t == HOLE:
+            return shared
+        if t[0] == 'app':
+            return Comb(conv(t[1]), conv(t[2]))
+        if t[0] == 'abs':
+            return Abs(t[1], ref.to_type(t[2]), conv(t[3]))
+        return ref.to_term(t)
+
+    def fill(t):
+        if t == HOLE:
+            return sub_ref
+        if t[0] == 'app':
+            return ('app', fill(t[1]), fill(t[2]))
+        if t[0] == 'abs':
+            return ('abs', t[1], t[2], fill(t[3]))
+        return t
+    h = conv(tree)
+    r = fill(tree)
+    for nm in wrappers:
+        h = Abs(nm, ref.to_type(A), h)
+        r = ('abs', nm, A, r)
+    return h, r
+
+
+def run_dag(case):
+    from kernel.term import Inst, Comb
+    from kernel.type import TyInst
+    sub_ref = DAG_SUBS[case[1]]
+    ctx = DAG_CTXS[case[2]]
+    wrappers = [(), ('y',), ('y', 'x')][case[3]]
+    n = 0
+    for s_ref in [('c', 'c', A), v('y', A), ('b', 0), ('app', Fc, ('b', 0))]:
+        h, r = build_dag(sub_ref, ctx, wrappers)
+        if r[0] == 'abs':
+            got = h.subst_bound(ref.to_term(s_ref))
+            bad = check_result('dag-subst_bound', case, 'subst_bound on an object with a shared sub-object: %s with %s' % (ref.show(r), ref.show(s_ref)),
+                               got, ref.inst_bound(r[3], s_ref))
+            if bad:
+                return bad
+            n += 1
+            h, r = build_dag(sub_ref, ctx, wrappers)
+            got = Comb(h, ref.to_term(s_ref)).beta_conv()
+            bad = check_result('dag-beta_conv', case, 'beta_conv with shared sub-object: (%s) %s' % (ref.show(r), ref.show(s_ref)), got,
+                               ref.inst_bound(r[3], s_ref))
+            if bad:
+                return bad
+    h, r = build_dag(sub_ref, ctx, wrappers)
+    for inc in (1, 2):
+        bad = check_result('dag-incr', case, 'incr_boundvars(%d) of %s' % (inc, ref.show(r)), h.incr_boundvars(inc), ref.shift(r, inc))
+        if bad:
+            return bad
+        n += 1
+    for var in (v('x', A), sv('x', A)):
+        try:
+            got = h.abstract_over(ref.to_term(var))
+        except Exception:
+            continue
+        bad = check_result('dag-abstract', case, 'abstract_over %s of %s' % (ref.show(var), ref.show(r)), got, ref.abstract(r, var))
+        if bad:
+            return bad
+        n += 1
+    for m in ({v('x', A): ('c', 'c', A)}, {sv('x', A): v('y', A)}):
+        inst = Inst()
+        for a, val in m.items():
+            if a[0] == 'sv':
+                inst[a[1]] = ref.to_term(val)
+            else:
+                inst.var_inst[a[1]] = ref.to_term(val)
+        try:
+            got = h.subst(inst)
+        except Exception:
+            continue
+        bad = check_result('dag-subst', case, 'subst %s on %s' % (show_map(m), ref.show(r)), got, ref.subst_free(r, m))
+        if bad:
+            return bad
+        n += 1
+    if not ref.is_open(r):
+        try:
+            expect = ref.beta_nf(r, 500)
+            bad = check_result('dag-beta_norm', case, 'beta_norm of %s' % ref.show(r), h.beta_norm(), expect)
+            if bad:
+                return bad
+            n += 1
+        except ref.OutOfFuel:
+            pass
+    # the object must be unchanged by all of the above
+    if ref.akey(ref.conv_term(h)) != ref.akey(r):
+        return viol('dag-mutated', case, 'operations modified their argument %s' % ref.show(r))
+    return Outcome('dag-ok', True, obs='d%d' % n)
+
+
 # ------------------------------------------------------------------------------ histories
 
 BASE = [v('x', A), v('y', A), ('app', ('c', 'f', fun(A, A)), v('x', A))]
@@ -505,6 +628,8 @@ def run(case):
         return run_types(case)
     if k == 'ops':
         return run_ops(case, tier)
+    if k == 'dag':
+        return run_dag(case)
     return run_hist(case)
 
 
